@@ -970,4 +970,111 @@ Section AllocInv.
           apply (B3 asc_child vs1 cs1 i'); [destruct HP1; assumption|exact Hi''|rewrite Eel; exact Hasc].
   Qed.
 
+  (* ---------------------------------------------------------------- zix_btree_remove *)
+  Lemma pre_root_erase : forall n : anode,
+    pre_root elt dflt L I (erase n) =
+    if negb (ais_leaf n) && (an_vals n =? 1) && negb (acan_remove_from L I (achild n 0))
+       && negb (acan_remove_from L I (achild n 1))
+    then child (merge dflt (erase n) 0) 0 else erase n.
+  Proof.
+    intros. unfold pre_root.
+    rewrite (E5 ais_leaf_erase), (E5 an_vals_erase), !(E5 achild_erase), !(E5 acan_remove_from_erase). reflexivity.
+  Qed.
+
+  Lemma aremove_owns : forall t s e, AInv t s ->
+    let '(st, out, t', s', lg) := aremove_op rank dflt L I s t e in owns s' (a_self t' :: pages (a_root t')).
+  Proof.
+    intros t s e [HInv O]. destruct HInv as ([h Hr] & Hasc & Hsz). cbn [erase_tree root] in *.
+    destruct (B7 pre_root_spec h (erase (a_root t)) Hr Hasc) as (h0 & Hk0 & Hmax0 & Hs0 & Eel0).
+    assert (O' : owns s (pages (a_root t) ++ [a_self t])) by (eapply owns_perm; [exact O|perm]).
+    unfold aremove_op. cbv zeta.
+    assert (Pre : exists n0 s0,
+              (if negb (ais_leaf (a_root t)) && (an_vals (a_root t) =? 1)
+                  && negb (acan_remove_from L I (achild (a_root t) 0))
+                  && negb (acan_remove_from L I (achild (a_root t) 1))
+               then let '(n1, s1) := amerge dflt s (a_root t) 0 in (achild n1 0, s1)
+               else (a_root t, s)) = (n0, s0) /\
+              erase n0 = pre_root elt dflt L I (erase (a_root t)) /\ owns s0 (pages n0 ++ [a_self t])).
+    { rewrite pre_root_erase.
+      destruct (negb (ais_leaf (a_root t)) && (an_vals (a_root t) =? 1)
+                && negb (acan_remove_from L I (achild (a_root t) 0))
+                && negb (acan_remove_from L I (achild (a_root t) 1))) eqn:E.
+      2:{ exists (a_root t), s. auto. }
+      apply andb_true_iff in E as [E E3]. apply andb_true_iff in E as [E E2]. apply andb_true_iff in E as [E0 E1].
+      destruct (a_root t) as [id vs|id vs cs]; [discriminate|].
+      apply Nat.eqb_eq in E1. apply negb_true_iff in E2, E3.
+      unfold achild in E2, E3. unfold an_vals in E1. cbn [achildren avals] in *.
+      destruct Hr as (Hk & _). cbn [erase] in Hk. destruct h as [|h]; [exact (False_ind _ Hk)|].
+      cbn [kids_ok] in Hk. destruct Hk as (Hh & Hl & Hf).
+      assert (HP : PK L I h vs (map erase cs)) by (split; assumption).
+      destruct (amerge dflt s (AInode id vs cs) 0) as [n1 s1] eqn:Em.
+      destruct (step_merge h s id vs cs 0 n1 s1 [a_self t] HP ltac:(lia) E2 E3 Em O') as (St & Hv & _).
+      destruct (E5 erase_merge_pair s _ 0 n1 s1 Em) as [En1 _].
+      exists (achild n1 0), s1. split; [reflexivity|]. split.
+      - rewrite <- (E5 achild_erase), En1. reflexivity.
+      - pose proof (step_down _ _ _ _ _ St) as Od. destruct St as (Hlf & _ & H1 & _).
+        destruct n1 as [id1 vs1|id1 [|v1 vs1] cs1]; [discriminate| |cbn [avals length] in Hv; lia].
+        cbn [avals achildren] in H1. specialize (H1 eq_refl).
+        destruct cs1 as [|c1 [|c2 cs1]]; cbn [length] in H1; try lia.
+        exact Od. }
+    destruct Pre as (n0 & s0 & -> & En0 & O0).
+    rewrite <- En0 in Hk0, Hs0, Eel0.
+    pose proof (aremove_down_frame h0 s0 n0 e [a_self t] Hk0 ltac:(rewrite Eel0; exact Hasc) Hs0 O0) as H.
+    cbv zeta in H. rewrite <- (E5 aheight_erase), (B7 kids_ok_height h0 _ Hk0).
+    cbn [a_self a_root]. eapply owns_perm; [exact H|perm].
+  Qed.
+
+  Lemma aremove_inv : forall t s e, AInv t s ->
+    let '(st, out, t', s', lg) := aremove_op rank dflt L I s t e in AInv t' s'.
+  Proof.
+    intros t s e H. pose proof (aremove_owns t s e H) as HO.
+    pose proof (E5 erase_remove s t e) as HE.
+    pose proof (B7 remove_refines (erase_tree t) e (proj1 H)) as HR.
+    destruct (aremove_op rank dflt L I s t e) as [[[[st out] t'] s'] lg].
+    destruct HE as (it & HE & _). rewrite HE in HR. split; [exact (proj1 HR)|exact HO].
+  Qed.
+
+  (* ---------------------------------------------------------------- histories *)
+  Lemma astep_inv : forall ts x, AInv (fst ts) (snd ts) -> AInv (fst (astep ts x)) (snd (astep ts x)).
+  Proof.
+    intros [t s] x H. cbn [fst snd] in H. destruct x as [o e|e|e|d]; cbn [astep].
+    - assert (H' : AInv t (with_oracle o s)).
+      { destruct H as [H1 H2]. split; [exact H1|]. apply owns_with_oracle. exact H2. }
+      pose proof (ainsert_inv t (with_oracle o s) e H') as HI0.
+      destruct (ainsert_op rank dflt L I (with_oracle o s) t e) as [[[st t'] s'] lg]. exact HI0.
+    - pose proof (aremove_inv t s e H) as HR.
+      destruct (aremove_op rank dflt L I s t e) as [[[[st out] t'] s'] lg]. exact HR.
+    - exact H.
+    - pose proof (aclear_inv t s H) as HC. destruct (aclear_op s t) as [t' s']. exact HC.
+  Qed.
+
+  Lemma arun_inv : forall ops ts, AInv (fst ts) (snd ts) ->
+    AInv (fst (fold_left astep ops ts)) (snd (fold_left astep ops ts)).
+  Proof.
+    induction ops as [|x ops IH]; intros ts H; cbn [fold_left]; [exact H|].
+    apply IH. apply astep_inv. exact H.
+  Qed.
+
+  Theorem btree_alloc_history : forall o0 ops,
+    match anew_op (elt := elt) (ast0 o0) with
+    | (None, s) => log_ok (log s) [] = true
+    | (Some t, s) =>
+        let '(t', s') := fold_left astep ops (t, s) in
+        AInv t' s' /\
+        log_ok (log s') (a_self t' :: pages (a_root t')) = true /\
+        NoDup (a_self t' :: pages (a_root t')) /\
+        log_ok (log (afree_op s' t')) [] = true
+    end.
+  Proof.
+    intros o0 ops. pose proof (anew_spec o0) as HN.
+    destruct (anew_op (elt := elt) (ast0 o0)) as [[t|] s].
+    - destruct HN as (HA & _ & _).
+      pose proof (arun_inv ops (t, s) HA) as HR.
+      destruct (fold_left astep ops (t, s)) as [t' s']. cbn [fst snd] in HR.
+      split; [exact HR|]. split; [apply owns_log_ok; exact (proj2 HR)|].
+      split; [exact (owns_NoDup _ _ (proj2 HR))|].
+      apply owns_log_ok. apply afree_spec. exact HR.
+    - apply owns_log_ok. exact HN.
+  Qed.
+
 End AllocInv.
